@@ -36,158 +36,152 @@ func ruleR06ab(c *Ctx) {
 	}
 	obl := newOblSet(c, rule)
 	defer obl.flush()
-	run := m.run
-	// the executor parameter of run
-	var execParam *ssa.Parameter
-	for _, p := range run.Params {
-		if sig, ok := p.Type().Underlying().(*types.Signature); ok && chanResultIdx(sig) >= 0 {
-			execParam = p
-		}
-	}
-	if execParam == nil {
-		obl.undecided("run:executor-parameter", run.Pos(), "executionContext.run has no executor parameter returning a done channel")
-		return
-	}
-	sig := execParam.Type().Underlying().(*types.Signature)
-	chIdx, errIdx := chanResultIdx(sig), errResultIdx(sig)
-	const waited = 1
-	key := "run:ack-after-persistence"
-	obl.expect(key, run.Pos(), "the executor's log is acknowledged only after the receive on its done channel")
-	nExec := 0
-	pr := &PathRule{
-		Step: func(pc *PathCtx, s uint64, ins ssa.Instruction) uint64 {
-			switch x := ins.(type) {
-			case *ssa.Call:
-				if x.Call.Value == ssa.Value(execParam) {
-					nExec++
-					return s &^ waited
-				}
-			case *ssa.UnOp:
-				if x.Op == token.ARROW {
-					if e, ok := x.X.(*ssa.Extract); ok && e.Index == chIdx {
-						if call, ok := e.Tuple.(*ssa.Call); ok && call.Call.Value == ssa.Value(execParam) {
-							return s | waited
-						}
-					}
-				}
-			case *ssa.Store:
-				if isExecLog(x.Val, execParam) && s&waited == 0 {
-					obl.violate(key, x.Pos(), "run hands the executor's log to its caller on a path that has not waited for the persistence signal: the write is acknowledged before it is persisted", pc.Trail())
-				}
-			case *ssa.Return:
-			}
-			return s
-		},
-		Exit: func(pc *PathCtx, s uint64, ins ssa.Instruction) {
-			if ret, ok := ins.(*ssa.Return); ok {
-				for _, r := range ret.Results {
-					if isExecLog(r, execParam) && s&waited == 0 {
-						obl.violate(key, ret.Pos(), "run returns the executor's log on a path that has not waited for the persistence signal", pc.Trail())
-					}
-				}
-			}
-		},
-	}
-	_ = errIdx
-	c.RunPaths(run, 0, pr)
-	if nExec == 0 {
-		obl.undecided("run:executor-call", run.Pos(), "run never calls its executor")
-	}
-	// other sources of a non-nil log returned by run: only the idempotency lookup
-	cells := resultCells(run)
-	checkSrc := func(v ssa.Value, pos token.Pos) {
-		if isNilConst(v) || isExecLog(v, execParam) {
-			return
-		}
-		if call, idx := resultOf(v); call != nil && idx == 0 && isCallTo(call, m.readLogIK) {
-			obl.expect("run:replayed-log-is-persisted", pos, "a log answered without executing comes from Store.ReadLogWithIdempotencyKey")
-			return
-		}
-		if u, ok := v.(*ssa.UnOp); ok && u.Op == token.MUL {
-			if a, ok := u.X.(*ssa.Alloc); ok && cells[0] == a {
-				return // load of the result cell: its stores are checked
-			}
-		}
-		obl.violate("run:log-source", pos, "run returns a log that is neither the executor's (after the wait) nor one read from the store by idempotency key", nil)
-	}
-	for _, b := range run.Blocks {
-		for _, ins := range b.Instrs {
-			switch x := ins.(type) {
-			case *ssa.Store:
-				if a, ok := x.Addr.(*ssa.Alloc); ok && cells[0] == a {
-					checkSrc(x.Val, x.Pos())
-				}
-			case *ssa.Return:
-				if len(x.Results) > 0 {
-					checkSrc(x.Results[0], x.Pos())
-				}
-			}
-		}
-	}
-
-	// who may hand off: only executors passed to run, or appenders returning the channel
-	executors := map[*ssa.Function]bool{}
-	for _, ci := range c.CallersOf(run) {
-		for i, a := range ci.Common().Args {
-			if i < len(run.Params) && run.Params[i] == execParam {
-				for _, f := range c.resolveFuncValue(a, 0) {
-					executors[f] = true
-				}
-			}
-		}
-	}
-	c.Info["executors"] = len(executors)
-	if len(executors) == 0 {
-		obl.undecided("floor:executors", run.Pos(), "no executor literal is passed to executionContext.run")
-	}
+	// Propagate-or-wait: a call that hands a log off (a function of the package that reaches
+	// Batcher.Append and returns the done channel, or a dynamic call of an executor that resolves to
+	// such functions) yields a done channel. The calling function must either pass that channel on to
+	// its own caller (together with the log), or receive on it on every path before it returns. By
+	// induction up the call chain every successful answer is preceded by the persistence signal.
+	nCalls, nWaiters := 0, 0
 	for _, fn := range m.fns {
+		var calls []*ssa.Call
 		allCalls(fn, func(ci ssa.CallInstruction) {
-			ch, _, ok := m.appendCall(c, ci)
-			if !ok {
-				return
+			if call, ok := ci.(*ssa.Call); ok {
+				if _, _, ok := m.appendCall(c, call); ok {
+					calls = append(calls, call)
+				}
 			}
-			if fn == run && ci.Common().Value == ssa.Value(execParam) {
-				return // run calling its executor: the mechanism itself (R06a)
-			}
-			k := fnName(fn) + ":handoff-acknowledged-through-run"
-			call := ci.(*ssa.Call)
-			returnsChan := func() bool {
+		})
+		if len(calls) == 0 {
+			continue
+		}
+		name := fnName(fn)
+		cells := resultCells(fn)
+		fnChan := chanResultIdx(fn.Signature)
+		for ci, call := range calls {
+			nCalls++
+			ch, errI, _ := m.appendCall(c, call)
+			k := fmt.Sprintf("%s:handoff#%d:propagated-or-waited", name, ci+1)
+			// does fn pass the channel on?
+			passes := false
+			if fnChan >= 0 {
 				for _, b := range fn.Blocks {
 					for _, ins := range b.Instrs {
 						switch x := ins.(type) {
 						case *ssa.Return:
-							for _, r := range x.Results {
-								if e, ok := r.(*ssa.Extract); ok && e.Tuple == ssa.Value(call) && e.Index == ch {
-									return true
-								}
-								if r == ssa.Value(call) {
-									return true
+							if len(x.Results) == 1 && x.Results[0] == ssa.Value(call) {
+								passes = true
+							}
+							if fnChan < len(x.Results) {
+								if e, ok := x.Results[fnChan].(*ssa.Extract); ok && e.Tuple == ssa.Value(call) && e.Index == ch {
+									passes = true
 								}
 							}
 						case *ssa.Store:
-							if e, ok := x.Val.(*ssa.Extract); ok && e.Tuple == ssa.Value(call) && e.Index == ch {
-								return true
+							if a, ok := x.Addr.(*ssa.Alloc); ok && cells[fnChan] == a {
+								if e, ok := x.Val.(*ssa.Extract); ok && e.Tuple == ssa.Value(call) && e.Index == ch {
+									passes = true
+								}
 							}
 						}
 					}
 				}
-				return false
-			}
-			switch {
-			case executors[fn]:
-				obl.expect(k, ci.Pos(), "hand-off inside an executor run by executionContext.run (which waits before acknowledging)")
-				if !returnsChan() {
-					obl.violate(k, ci.Pos(), "the executor does not return the done channel of the log it handed off: run cannot wait for its persistence", nil)
+				// `return f(...)` of a tuple-returning call
+				for _, b := range fn.Blocks {
+					if ret, ok := b.Instrs[len(b.Instrs)-1].(*ssa.Return); ok && fnChan < len(ret.Results) {
+						if e, ok := ret.Results[fnChan].(*ssa.Extract); ok && e.Tuple == ssa.Value(call) {
+							passes = true
+						}
+					}
 				}
-			case chanResultIdx(fn.Signature) >= 0 && returnsChan():
-				obl.expect(k, ci.Pos(), "the done channel is passed on to the caller")
-			default:
-				obl.violate(k, ci.Pos(), "a log is handed to the batcher outside executionContext.run's executors: its success is reported without waiting for persistence", nil)
 			}
-		})
+			if passes {
+				obl.expect(k, call.Pos(), "the done channel of the hand-off is passed on to the caller, which inherits the obligation to wait")
+				continue
+			}
+			nWaiters++
+			obl.expect(k, call.Pos(), "the function receives on the done channel of the hand-off on every path before it returns")
+			const pending = 1
+			theCall := call
+			pr := &PathRule{
+				Step: func(pc *PathCtx, s uint64, ins ssa.Instruction) uint64 {
+					switch x := ins.(type) {
+					case *ssa.Call:
+						if x == theCall {
+							pc.Note("log handed off at %s", c.pos(x.Pos()))
+							return s | pending
+						}
+					case *ssa.UnOp:
+						if x.Op == token.ARROW {
+							if e, ok := x.X.(*ssa.Extract); ok && e.Tuple == ssa.Value(theCall) && e.Index == ch {
+								return s &^ pending
+							}
+						}
+					case *ssa.Select:
+						// a select that can complete through another arm is not a wait
+					}
+					return s
+				},
+				Edge: func(pc *PathCtx, s uint64, from *ssa.BasicBlock, si int) (uint64, bool) {
+					for _, f := range pc.edgeFacts(from, si) {
+						if e, ok := f.X.(*ssa.Extract); ok && e.Tuple == ssa.Value(theCall) && e.Index == errI && isNilConst(f.Y) && !f.Eq {
+							return s &^ pending, true // the hand-off itself failed: nothing was handed off
+						}
+					}
+					return s, true
+				},
+				Exit: func(pc *PathCtx, s uint64, ins ssa.Instruction) {
+					if _, ok := ins.(*ssa.Return); ok && s&pending != 0 {
+						obl.violate(k, ins.Pos(), "the function returns on a path that handed a log to the batcher but neither passes the done channel on nor has received on it: the write is answered (success or failure) before it is persisted", pc.Trail())
+					}
+				},
+			}
+			c.RunPaths(fn, 0, pr)
+		}
+		// where fn does not return a channel, the log it returns must come from a hand-off or from the store
+		if fnChan < 0 && chainedLogResultIdx(fn.Signature) >= 0 {
+			li := chainedLogResultIdx(fn.Signature)
+			checkSrc := func(v ssa.Value, pos token.Pos) {
+				if isNilConst(v) {
+					return
+				}
+				if call, idx := resultOf(v); call != nil && idx == 0 {
+					if _, _, ok := m.appendCall(c, call); ok {
+						return
+					}
+					if isCallTo(call, m.readLogIK) {
+						obl.expect(name+":replayed-log-is-persisted", pos, "a log answered without executing comes from Store.ReadLogWithIdempotencyKey")
+						return
+					}
+				}
+				if u, ok := v.(*ssa.UnOp); ok && u.Op == token.MUL {
+					if a, ok := u.X.(*ssa.Alloc); ok && cells[li] == a {
+						return
+					}
+				}
+				obl.violate(name+":log-source", pos, "the function answers with a log that is neither the result of a hand-off (after the wait) nor one read from the store by idempotency key", nil)
+			}
+			for _, b := range fn.Blocks {
+				for _, ins := range b.Instrs {
+					switch x := ins.(type) {
+					case *ssa.Store:
+						if a, ok := x.Addr.(*ssa.Alloc); ok && cells[li] == a {
+							checkSrc(x.Val, x.Pos())
+						}
+					case *ssa.Return:
+						if li < len(x.Results) {
+							checkSrc(x.Results[li], x.Pos())
+						}
+					}
+				}
+			}
+		}
+	}
+	c.Info["handoff_calls"] = nCalls
+	if nCalls < 3 || nWaiters == 0 {
+		obl.undecided("floor:handoff-calls", token.NoPos, fmt.Sprintf("expected hand-off calls with at least one waiting function, found %d calls / %d waiters", nCalls, nWaiters))
 	}
 
-	// R06b: who closes the done channel
+	// R06b: who closes a done channel
 	oblB := newOblSet(c, "R06b")
 	defer oblB.flush()
 	nClose := 0
@@ -214,18 +208,79 @@ func ruleR06ab(c *Ctx) {
 					oblB.expect(k, call.Pos(), "closed inside the callback handed to the batcher (runs after InsertLogs succeeded, R06c)")
 					continue
 				}
-				// otherwise it must be on the DryRun edge
 				if guardedByFieldFact(c, fn, call, m.fDryRun, true) {
 					oblB.expect(k, call.Pos(), "closed on the DryRun edge (nothing is persisted, nothing to wait for)")
 					continue
 				}
-				oblB.violate(k, call.Pos(), "the done channel is closed outside the batcher callback and outside the dry-run branch: waiters are released before the log is persisted", nil)
+				// a fresh channel closed at once is legitimate only when it accompanies a log that is already
+				// persisted (found by idempotency key)
+				if pairedWithStoredLog(c, m, fn, call) {
+					oblB.expect(k, call.Pos(), "an already-closed channel returned together with a log read from the store")
+					continue
+				}
+				oblB.violate(k, call.Pos(), "the done channel is closed outside the batcher callback, outside the dry-run branch and not for a log read back from the store: waiters are released before the log is persisted", nil)
 			}
 		}
 	}
 	if nClose == 0 {
 		oblB.undecided("floor:close-sites", token.NoPos, "no close of a done channel found in package command")
 	}
+}
+
+func chainedLogResultIdx(sig *types.Signature) int {
+	for i := 0; i < sig.Results().Len(); i++ {
+		if isNamed(sig.Results().At(i).Type(), pkgLedger, "ChainedLog") {
+			return i
+		}
+	}
+	return -1
+}
+
+// pairedWithStoredLog: the channel closed by `closeCall` is returned by fn in the same return as a log
+// that comes from Store.ReadLogWithIdempotencyKey.
+func pairedWithStoredLog(c *Ctx, m *cmdModel, fn *ssa.Function, closeCall *ssa.Call) bool {
+	ch := closeCall.Call.Args[0]
+	li, ci := chainedLogResultIdx(fn.Signature), chanResultIdx(fn.Signature)
+	if li < 0 || ci < 0 {
+		return false
+	}
+	cells := resultCells(fn)
+	found, okAll := false, true
+	fromStore := func(v ssa.Value) bool {
+		for _, r := range roots(v, nil) {
+			if call, idx := resultOf(r); call != nil && idx == 0 && isCallTo(call, m.readLogIK) {
+				return true
+			}
+		}
+		return false
+	}
+	for _, b := range fn.Blocks {
+		var logV, chV ssa.Value
+		for _, ins := range b.Instrs {
+			switch x := ins.(type) {
+			case *ssa.Store:
+				if a, ok := x.Addr.(*ssa.Alloc); ok {
+					if cells[li] == a {
+						logV = x.Val
+					}
+					if cells[ci] == a {
+						chV = x.Val
+					}
+				}
+			case *ssa.Return:
+				if cells[li] == nil && li < len(x.Results) {
+					logV, chV = x.Results[li], x.Results[ci]
+				}
+			}
+		}
+		if chV != nil && strip(chV) == strip(ch) {
+			found = true
+			if logV == nil || !fromStore(logV) {
+				okAll = false
+			}
+		}
+	}
+	return found && okAll
 }
 
 func fnOrParentSig(fn *ssa.Function) *types.Signature {
@@ -740,6 +795,16 @@ func ruleR06f(c *Ctx) {
 					}
 				}
 				if changed, isNil := et.onStore(ins); changed {
+					if !isNil {
+						// the hand-off's own error passed on as is: nil whenever something was handed off
+						if e, ok := ins.(*ssa.Store).Val.(*ssa.Extract); ok {
+							if call, ok := e.Tuple.(*ssa.Call); ok {
+								if _, ei, ok := m.appendCall(c, call); ok && ei == e.Index {
+									isNil = true
+								}
+							}
+						}
+					}
 					if isNil {
 						return s | errNil
 					}
